@@ -6,8 +6,10 @@
    (numbers become exact reals).  Standard-library real-number axioms enter through Flocq's B2R. *)
 From Coq Require Import List ZArith NArith Bool Reals.
 From Flocq Require Import Core IEEE754.BinarySingleNaN.
-From Verif Require Import c11.Value c11.Natives c11.OrderGeneric c11.NumProofs c11.OrderProofs.
+From Coq Require Import Sorting.Sorted Sorting.Permutation.
+From Verif Require Import c11.Value c11.Natives c11.OrderGeneric c11.NumProofs c11.OrderProofs c11.SortProofs c11.NativesProofs.
 Import ListNotations.
+Open Scope nat_scope.
 
 (* ---------- 1. Compare is a total preorder on the domain ---------- *)
 
@@ -73,6 +75,109 @@ Print Assumptions C11_operators_coherent.
 Theorem C11_domain_decidable : forall v, goodb v = true <-> good v.
 Proof. exact goodb_spec. Qed.
 Print Assumptions C11_domain_decidable.
+
+(* ---------- 2. the consumers of the order (Natives.v copies func.go / operator.go) ----------
+   Items are (value, key) pairs as in func.go sortItem; `sort`, `unique`, `min`, `max` use the value as
+   its own key, the *_by forms use the key [f] computed by the query.  good_keys: every key in the domain.
+   sort.SliceStable is modelled by a stable insertion sort; C11_stable_sort_unique shows that ANY
+   ordered arrangement that keeps every class of Compare-equal keys in input order is that list, so the
+   only assumption on sort.SliceStable is that it is what its name says. *)
+
+Theorem C11_sort_permutation : forall l : list vitem, Permutation (sort_items compare l) l.
+Proof. exact sort_permutation. Qed.
+Print Assumptions C11_sort_permutation.
+
+Theorem C11_sort_ordered : forall l : list vitem, good_keys l -> StronglySorted key_le (sort_items compare l).
+Proof. exact sort_ordered. Qed.
+Print Assumptions C11_sort_ordered.
+
+(* stable: the items whose key is Compare-equal to k appear in their input order, for every k *)
+Theorem C11_sort_stable : forall (l : list vitem) k, good k -> good_keys l ->
+  filter (same_class k) (sort_items compare l) = filter (same_class k) l.
+Proof. exact sort_stable. Qed.
+Print Assumptions C11_sort_stable.
+
+Theorem C11_stable_sort_unique : forall l out : list vitem,
+  good_keys l -> good_keys out -> StronglySorted key_le out ->
+  (forall k, good k -> filter (same_class k) out = filter (same_class k) l) ->
+  out = sort_items compare l.
+Proof. exact stable_sort_is_unique. Qed.
+Print Assumptions C11_stable_sort_unique.
+
+(* plain `sort` on values *)
+Theorem C11_sort_values : forall l, Forall good l ->
+  Permutation (sort_values l) l /\ StronglySorted le (sort_values l).
+Proof. exact sort_values_spec. Qed.
+Print Assumptions C11_sort_values.
+
+(* group_by: the groups partition the sorted input (concatenation gives it back), each group is a
+   first item followed by items with Compare-equal keys, and every item of an earlier group is
+   strictly smaller than every item of a later group (so the runs are maximal). *)
+Theorem C11_group_by_partition : forall l : list vitem,
+  concat (groups compare (sort_items compare l)) = sort_items compare l.
+Proof. exact group_by_partition. Qed.
+Print Assumptions C11_group_by_partition.
+
+Theorem C11_group_by_runs : forall l : list vitem, Forall (is_run compare) (groups compare (sort_items compare l)).
+Proof. exact group_by_runs. Qed.
+Print Assumptions C11_group_by_runs.
+
+Theorem C11_group_by_maximal : forall l : list vitem, good_keys l ->
+  StronglySorted (grp_lt compare) (groups compare (sort_items compare l)).
+Proof. exact group_by_maximal. Qed.
+Print Assumptions C11_group_by_maximal.
+
+(* unique: sort, then the first item of every group; no two results are Compare-equal *)
+Theorem C11_unique_first_of_groups : forall l : list vitem,
+  Forall2 (fun u grp => exists t, grp = u :: t) (uniq compare (sort_items compare l)) (groups compare (sort_items compare l)).
+Proof. exact unique_first_of_groups. Qed.
+Print Assumptions C11_unique_first_of_groups.
+
+Theorem C11_unique_strictly_increasing : forall l : list vitem, good_keys l ->
+  StronglySorted key_lt (uniq compare (sort_items compare l)).
+Proof. exact unique_strictly_increasing. Qed.
+Print Assumptions C11_unique_strictly_increasing.
+
+(* min_by picks the FIRST minimum, max_by the LAST maximum (what minMaxBy's loop does) *)
+Theorem C11_min_by_first_minimum : forall (l : list vitem) j b, good_keys l ->
+  min_max_by compare true l = Some (j, b) -> first_min compare l j b.
+Proof. exact min_by_is_first_minimum. Qed.
+Print Assumptions C11_min_by_first_minimum.
+
+Theorem C11_max_by_last_maximum : forall (l : list vitem) j b, good_keys l ->
+  min_max_by compare false l = Some (j, b) -> last_max compare l j b.
+Proof. exact max_by_is_last_maximum. Qed.
+Print Assumptions C11_max_by_last_maximum.
+
+(* bsearch on every sorted in-domain array and every in-domain target *)
+Theorem C11_bsearch : forall vs t, Forall good vs -> good t -> StronglySorted le vs ->
+  let r := bsearch compare vs t in
+  ((0 <= r)%Z ->
+     exists x, nth_error vs (Z.to_nat r) = Some x /\ compare x t = Eq /\
+               forall k y, k < Z.to_nat r -> nth_error vs k = Some y -> compare y t = Lt) /\
+  ((r < 0)%Z ->
+     let p := Z.to_nat (- r - 1) in
+     p <= length vs /\
+     forall k y, nth_error vs k = Some y -> (k < p -> compare y t = Lt) /\ (p <= k -> compare y t = Gt)).
+Proof. exact bsearch_sorted. Qed.
+Print Assumptions C11_bsearch.
+
+(* array subtraction removes exactly the Compare-equal elements and keeps the order of the rest *)
+Theorem C11_array_sub_membership : forall l r x,
+  In x (arr_sub compare l r) <-> In x l /\ forall y, In y r -> compare x y <> Eq.
+Proof. exact array_sub_membership. Qed.
+Print Assumptions C11_array_sub_membership.
+
+Theorem C11_array_sub_is_filter : forall l r,
+  arr_sub compare l r = filter (fun x => forallb (fun y => negb (is_eq (compare x y))) r) l.
+Proof. exact array_sub_is_filter. Qed.
+Print Assumptions C11_array_sub_is_filter.
+
+(* keys (= object iteration order = output key order in the model): strictly ascending in the value order *)
+Theorem C11_object_keys_sorted : forall m, wfb (VObj m) = true ->
+  StronglySorted (fun a b => compare a b = Lt) (obj_keys m).
+Proof. exact object_keys_sorted. Qed.
+Print Assumptions C11_object_keys_sorted.
 
 (* ---------- non-vacuity, and why the domain excludes NaN and floats >= 2^53 ---------- *)
 Definition ex_vals : list value :=
